@@ -138,7 +138,9 @@ def probe_router(router_mod):
         if kind is None:
             try:
                 hits = [x for x in _ATTRS if D({p: PV}, **{x: PV}) and not D({p: PV})
-                        and not D({p: PV}, **{y: PV for y in _ATTRS if y != x})]
+                        and not D({p: PV}, **{y: PV for y in _ATTRS if y != x})
+                        and not D({p: PV}, **{x: PV + '/x'}) and not D({p: PV + '/'}, **{x: PV})
+                        and not D({p: PV}, **{x: None})]
             except Exception:
                 hits = []
             if len(hits) == 1:
